@@ -4,3 +4,12 @@ $(O)/fx: $(FX_OBJS) $(UT_OBJS) $(F44_OBJS) $(O)/librt.a
 	$(CXX) $(LDFLAGS) -rdynamic -o $@ $(FX_OBJS) $(UT_OBJS) $(F44_OBJS) $(O)/librt.a $(LDLIBS)
 fx: $(O)/fx
 .PHONY: fx
+
+# libFuzzer targets (FLAVOUR=fuzz)
+$(O)/fuzz_factory: $(O)/h/fuzz_factory.o $(UT_OBJS) $(F44_OBJS) $(O)/librt.a
+	$(CXX) $(SAN_asan) -fsanitize=fuzzer -o $@ $(O)/h/fuzz_factory.o $(UT_OBJS) $(F44_OBJS) $(O)/librt.a $(LDLIBS)
+$(O)/fuzz_chksum: $(O)/h/fuzz_chksum.o $(O)/librt.a
+	$(CXX) $(SAN_asan) -fsanitize=fuzzer -o $@ $(O)/h/fuzz_chksum.o $(O)/librt.a $(LDLIBS)
+fuzz_factory: $(O)/fuzz_factory
+fuzz_chksum: $(O)/fuzz_chksum
+.PHONY: fuzz_factory fuzz_chksum
